@@ -59,13 +59,13 @@ theorem not_reserved_of_owns (c : Case) (hwf : wf c = true) (n : String) (ho : o
     reserved.contains n = false := by
   unfold wf at hwf
   simp only [Bool.and_eq_true, List.all_eq_true] at hwf
-  have := hwf.1.1.1.1.2 n (by simpa [owns] using ho)
+  have := hwf.1.1.1.1.1.2 n (by simpa [owns] using ho)
   simpa using this
 
 theorem hcmp_of_wf (c : Case) (hwf : wf c = true) : c.api = .attrS ∨ c.fCmp = .unset := by
   unfold wf at hwf
   simp only [Bool.and_eq_true, Bool.or_eq_true, beq_iff_eq] at hwf
-  exact hwf.2
+  exact hwf.1.2
 
 theorem reserved_fieldNames (n : String) (h : reserved.contains n = false) :
     fieldNames.contains n = false := by
